@@ -61,7 +61,7 @@ CLAIMED = {
               "theorem fails when an unreviewed one appears. Exploration (support and failing-input search, not proof): the arithmetic models are compared with the server on a boundary grid, "
               "and a hostile sweep (119 command names x arities x positions x 50 boundary literals x key types, malformed/absurd/deeply nested frames, 64k inputs per quick run) must "
               "leave the process alive, a fresh connection served and canary data intact; a crash is bisected to one command."),
-        note=TB + "Stack cost per level, allocator behaviour under memory pressure, Lua memory (no script memory limit: recorded finding, confirmed on a server with capped address space) and lock-order deadlocks cannot be exhibited by a theorem; process liveness is explored, not proved: hostile sweep, split frames, deep nesting through every aggregate, state-left-behind sequences, nine runaway scripts against the 5 s script time limit.",
+        note=TB + "Stack cost per level, allocator behaviour under memory pressure, Lua's allocator beyond the 1 GiB script memory limit and lock-order deadlocks cannot be exhibited by a theorem; process liveness is explored, not proved: hostile sweep, split frames, deep nesting through every aggregate, state-left-behind sequences, fourteen runaway / memory-eating scripts on servers with capped address space against the 5 s time limit and the 1 GiB script memory limit.",
         ref="DESIGN.md section 5 C06"),
     "C09": dict(
         text=("Proof: decode(encode) = identity for every length below 2^32 (all three length forms by omega, truncation beyond proved as witness), every byte string, every value of "
